@@ -75,7 +75,8 @@ IDX_ASSUME = [
     'the indexer text is verified as its own crate against the REAL ide and syntax rlibs rebuilt from /repo; the query group, struct Index, fn index and IndexCtx::finish stay in the linked crate',
     'about 130 dependency functions (AST accessors, symbol-map constructors/setters, Diagnostic::new, ...) have signature-only assumed contracts harvested mechanically: assumed not to panic and not to touch the scope/file stacks',
     'termination of the recursion over the syntax tree is not proved (no measure on the external rowan/AST types; #[verifier::exec_allows_no_decreases_clause])',
-    'external_body with ASSUMED frame contract (iterator adapters / closures capturing ctx are unsupported): Value, SimpleValue, ArgValueList, resolve_class_ref_as_class/_multiclass, check_template_args, BangOperator::index and its common:: helpers, Scopes::current_*_id / find_local / add_variable / find_variable_in_current_scope, Scope::add_variable / find_variable, IndexCtx::new / next_anonymous_def_name',
+    'R13: Option::and_then(closure capturing &mut ctx) is inlined to its defining match in the verified text (1 site in BangOperator::index)',
+    'external_body with ASSUMED frame contract (iterator adapters / closures capturing ctx are unsupported): Value, SimpleValue, ArgValueList, resolve_class_ref_as_class/_multiclass, check_template_args, the common:: helpers of bang_operator.rs, Scopes::current_*_id / find_local / add_variable / find_variable_in_current_scope, Scope::add_variable / find_variable, IndexCtx::new / next_anonymous_def_name',
     'tree-shape assumptions on the parser output: Def::record_body, Defm::parent_class_list, Defset::statement_list, Foreach::body are always Some (the grammar functions build these nodes unconditionally)',
     'R4 for-loop desugaring, R5 tracing!/format! removal, R11 binder renaming in the verified text',
 ]
@@ -84,19 +85,29 @@ prop('C05', units=['idx'], level='proof', relevant=r'^unit::index::',
                   'every exit including `?`: the scope stack (as a sequence of frame kinds) and the file stack are exactly restored, i.e. class, def, defm, defset, '
                   'foreach and multiclass pop what they pushed, an included file is popped again. This is the mechanism behind "a name used after the construct that '
                   'declared it has ended does not resolve to it" and "in the right file". Not decided: that a use resolves to THE declaring identifier (lookup order, '
-                  'add_reference at each use), and the three bang-operator scopes (!filter/!foldl/!foreach), whose function is external_body.'),
+                  'add_reference at each use). The three bang-operator scopes (!filter/!foldl/!foreach) are covered: BangOperator::index is verified.'),
      assumptions=IDX_ASSUME)
 prop('C03', units=['idx'], level='proof', relevant=r'^unit::index::',
      explanation=('PARTIAL (three mechanisms of the indexer). Verus proves on the real indexer text that the precondition of every panic site holds on every path: '
                   'Scopes::pop / last (expect "scope is empty"), IndexCtx::current_file_id / pop_file / error (expect "file_trace is empty"), the panic! of '
                   'TemplateArgDecl::index and ParentClassList::index (a Record/Multiclass/Defm frame is open), the expect of FieldDef/FieldLet (a Record frame is open); '
                   'and that no record is added to its own parent list (the only inheritance cycle the indexer could build, since a parent must already exist), which is what '
-                  'keeps Record::find_field / is_subclass_of from recursing forever. Not decided: handlers\' rowan navigation, salsa, the unreachable! of bang_operator.rs, '
+                  'keeps Record::find_field / is_subclass_of from recursing forever. Not decided: handlers\' rowan navigation, salsa, '
                   'termination of find_field under the acyclicity it relies on (argued, not mechanised), hangs elsewhere.'),
      assumptions=IDX_ASSUME + ['SymbolMap::record_mut returns the record with the requested id (ghost rec_id_of); id_arena::Id equality is structural'])
-prop('C16', units=['idx'], level='proof', relevant=r'^unit::index::',
-     explanation=('PARTIAL (single indexing only, in this unit). Verus proves on the real text that IndexCtx::push_file enters a file iff it is not yet in indexed_files and '
+prop('C16', units=['idx', 'fs'], level='proof', relevant=r'^unit::(index|file_system|fsspec)::',
+     explanation=('Unit FS: Verus proves on the real text of collect_sources that the work-list loop terminates (measure: files of the universe not yet visited, then queue length; '
+                  'the universe of file ids the file system can hand out is ASSUMED finite), that the returned SourceRoot contains the root, is closed under the include maps stored '
+                  'in the database and contains only files reachable from the root through them (BFS invariants with a path witness), and that an include statement is recorded in its '
+                  'file\'s include map iff it resolves, with the file it resolves to (the data behind document links and not-found diagnostics). '
+                  'Unit IDX: Verus proves on the real text that IndexCtx::push_file enters a file iff it is not yet in indexed_files and '
                   'records it, that Include::index only indexes a file it has entered, and that no indexing function ever removes a file from indexed_files; hence the '
-                  'declarations of a file reached along several include paths (or through a cycle) are indexed once. Termination and exact reachability of collect_sources: see unit FS if claimed; '
-                  'document links and not-found diagnostics are not decided.'),
-     assumptions=IDX_ASSUME + ['FileId obeys vstd\'s HashSet key model'])
+                  'declarations of a file reached along several include paths (or through a cycle) are indexed once. '
+                  'Not decided: that the document_link / diagnostics handlers render the include map faithfully (rowan traversal in handlers).'),
+     assumptions=IDX_ASSUME + ['FileId obeys vstd\'s HashSet key model',
+                               'FS: the file system hands out ids from a finite, unchanging universe (false for an OS file system with `./` path aliases: see DESIGN, finding on path aliases)',
+                               'FS: the path of a file has a parent directory; PathBuf::from_str never fails',
+                               'FS: resolve_include_file is external_body: its result is a function (resolve_spec) of the file system, the path and the directory list, and handing out an id does not change what resolves',
+                               'FS: list_includes is external_body: distinct include statements have distinct ids',
+                               'FS: FileSet/SourceRoot/HashMap<IncludeId,_>/salsa setters behave as their ghost views say (assumed contracts); IncludeId obeys the key model',
+                               'FS: R4 desugaring of the inner for-loop; a `;` plus ghost block is appended after the unit tail expression of the outer loop body'])
